@@ -44,7 +44,13 @@ Blocks0 == { E("p", <<x>>) : x \in {tTwo, tLong} }
                     E("blockquote", <<E("blockquote", <<tTwo>>)>>),
                     EA("p", [id |-> "i2"], <<"id">>, <<tLong, tSp, tAB>>),
                     EA("ol", [start |-> [s |-> "-1", c |-> Str(<<45, 49>>)]], <<"start">>, <<E("li", <<tAB>>), E("li", <<tAB>>), E("li", <<tAB>>)>>),
-                    E("h1", <<EA("a", [href |-> Href], <<"href">>, <<tAB>>)>>) })
+                    E("h1", <<EA("a", [href |-> Href], <<"href">>, <<tAB>>)>>),
+                    \* content directly in a list, a table with caption and foot, superscripts
+                    E("ol", <<tAB, E("li", <<tTwo>>), tSp, E("em", <<tAB>>)>>),
+                    E("dl", <<tAB, E("dt", <<tTwo>>), E("dd", <<tAB>>), tTwo>>),
+                    E("table", << E("caption", <<tAB>>), E("tbody", << E("tr", << E("td", <<tTwo>>), E("td", <<>>) >>) >>),
+                                  E("tfoot", << E("tr", << E("td", <<tAB>>), E("td", <<tWide>>) >>) >>) >>),
+                    E("p", <<tAB, E("sup", <<T(Str(<<49, 50>>))>>), E("sup", <<T(Str(<<55>>)), E("em", <<tAB>>)>>)>>) })
 (* ---- regular tables (Scope "tq" / "tt"): every cell is filled with copies of its own letter ---- *)
 TScope == Scope \in {"tq", "tt"}
 NCols == IF Scope = "tq" THEN {2} ELSE {2, 3}
@@ -213,11 +219,16 @@ Inv_Rel_C15 == phase = "done" => \A o \in RelOpts : HasOp(cfg, o[1]) \/ LET c ==
 \* C07: a document that is one list / quote / heading is the prefixes composed with the
 \* specification's renderings of its items at the narrower width (link-free: footnote numbers are global)
 C07Block(n) == n.k = "e" /\ n.n \in {"blockquote", "ul", "ol", "h1", "h2"}
-C07Items(n) == IF n.n \in {"ul", "ol"} THEN [i \in 1..Len(n.c) |-> n.c[i].c] ELSE << n.c >>
+\* the items of a list: the children of each <li>; content written directly in the list is an item of its own
+\* (in <ol> only if it is not empty, or it would take a number)
+C07Items(n) == IF n.n \in {"ul", "ol"}
+               THEN LET keep == SelectSeq(n.c, LAMBDA x : IsHtml(x, "li") \/ n.n = "ul" \/ NonWs(FlowText(x)) # <<>>) IN
+                    [i \in 1..Len(keep) |-> IF IsHtml(keep[i], "li") THEN keep[i].c ELSE << keep[i] >>]
+               ELSE << n.c >>
 C07Start(n) == IF n.n = "ol" /\ HasAttr(n, "start") THEN ParseInt(n.a.start.c, TRUE, 1) ELSE 1
 C07PW(n) == CASE n.n = "blockquote" -> SumW(cf.ds.quote)
               [] n.n = "ul" -> SumW(cf.ds.ul)
-              [] n.n = "ol" -> Max2(SumW(OlPrefix(cf, C07Start(n))), SumW(OlPrefix(cf, C07Start(n) + Max2(Len(n.c), 1) - 1)))
+              [] n.n = "ol" -> Max2(SumW(OlPrefix(cf, C07Start(n))), SumW(OlPrefix(cf, C07Start(n) + Max2(Len(C07Items(n)), 1) - 1)))
               [] n.n = "h1" -> SumW(cf.ds.hdr[1])
               [] OTHER -> SumW(cf.ds.hdr[2])
 Inv_Rel_C07 ==
